@@ -121,4 +121,10 @@ pub mod verif_hooks {
     pub use super::inlay_hint::{inlay_hint, on_inlay_hint_handler};
     pub use super::text_document::{on_did_change_text_document, on_did_open_text_document};
     pub use crate::context::{ClientId, ServerContext, ServerContextSnapshot};
+    // document-wide requests and the advertised capabilities, for the C26 bounded search (add-only)
+    pub use super::document_selection_range::on_document_selection_range_handle;
+    pub use super::document_symbol::on_document_symbol;
+    pub use super::fold_range::on_folding_range_handler;
+    pub use super::semantic_token::semantic_token;
+    pub use super::server_capabilities;
 }
